@@ -716,6 +716,22 @@ func genGunCancel(r *rand.Rand, inst int) string {
 		inst, 2*inst, k, d, pick(r, "G", "P"), pick(r, "0", "0", "300"), sc)
 }
 
+// genGunHTML (round 6, seed C15-r6-2): the html templater (`templater: {type: html}`; `tm=t`: the text templater
+// configured explicitly) with templates that are expensive to parse (B<k>: a dead branch of k*1000 actions) in the
+// URI, a header and the body of several steps, shot by 2–8 instances whose FIRST shots overlap: every instance meets
+// every template slot for the first time at about the same moment. Every step is valid: none may be reported failed.
+func genGunHTML(r *rand.Rand, inst int) string {
+	big := func() string { return fmt.Sprintf("B%d", 2+r.Intn(5)) }
+	tm := "h"
+	if r.Intn(5) == 0 {
+		tm = "t"
+	}
+	a := "a:G::" + pick(r, big(), "clit|"+big(), "clit") + ":" + pick(r, "", big()) + ":jtok=tok"
+	b := "b:P::pa.tok|" + big() + ":" + pick(r, big(), "pa.tok") + "::x-extra=" + big()
+	c := "c:G::" + pick(r, big(), "clit") + "::"
+	return fmt.Sprintf("kind=gun inst=%d shots=%d L=2 tm=%s rq=%s;%s;%s sc=s1:1:0:a|b|c|b or=", inst, inst*(1+r.Intn(2)), tm, a, b, c)
+}
+
 // genGunTmplErr (round 4): focused cases for templates that cannot be used: request b carries a template that does not
 // parse (m1–m3) or fails after writing literal text (m4) in its URI, its body or an extra header; a precedes it, c follows
 // (and must not be executed); three or four shots, 1 or 4 instances — the failure must repeat on every shot, nothing of
@@ -848,6 +864,9 @@ func gen(r *rand.Rand, tier string) []string {
 			inst = 4
 		}
 		out = append(out, genGunCancel(r, inst))
+	}
+	for i := 0; i < 2*nPause; i++ {
+		out = append(out, genGunHTML(r, []int{8, 4, 2, 8, 1, 6}[i%6]))
 	}
 	for i := 0; i < nProv; i++ {
 		out = append(out, genProv(r))
